@@ -1051,7 +1051,7 @@ pub fn adv_world(r: &mut Rng, tier: Tier, o: &AdvOpts) -> (WorldCfg, OracleCfg, 
         addr: ts,
         slot_bits,
         // a misconfigured HSA at or below the own address is generated for C05 only
-        hsa: if o.hostile && r.chance(1, 20) { r.below(u64::from(ts) + 1) as u8 } else { hsa },
+        hsa,
         gap: r.range(1, if tier == Tier::Quick { 4 } else { 20 }) as u8,
         ttr: match r.below(3) {
             0 => 256,
@@ -1148,6 +1148,83 @@ pub fn generate(check: &str, tier: Tier, base_seed: u64, k: u64) -> Scenario {
             };
             let (w, o) = ring_world(&mut r, tier, &o);
             (w, o, Vec::<Fault>::new())
+        }
+        "C05" => {
+            match r.below(10) {
+                0..=4 => {
+                    let apps = r.chance(2, 3);
+                    adv_world(&mut r, tier, &AdvOpts { polite: false, apps, hostile: true, log_all: true })
+                }
+                5..=7 => {
+                    let o = DpOpts {
+                        n_min: 0,
+                        n_max: 3,
+                        wire_faults: true,
+                        slave_faults: true,
+                        mismatch: true,
+                        user_writes: true,
+                        user_diag: true,
+                        user_reset: true,
+                        second_master: true,
+                        second_app: true,
+                        big_images: r.chance(1, 3),
+                        quiet_phase: false,
+                        take_every_poll: false,
+                    };
+                    let (mut w, o, mut f) = dp_world(&mut r, tier, &o);
+                    w.log_all = true;
+                    // the empty DP master, noise on the bus, API calls
+                    let tslot_us = bit_us(w.baud, u64::from(w.stations[0].slot_bits)).max(1);
+                    for _ in 0..r.range(0, 4) {
+                        let t = r.range(0, w.end_us);
+                        let kind = match r.below(4) {
+                            0 => {
+                                let nb = r.range(1, 16) as usize;
+                                FaultKind::Noise { bytes: r.bytes(nb) }
+                            }
+                            1 => FaultKind::Stall { station: 0, us: r.range(1, 80) * tslot_us },
+                            2 => {
+                                f.push(Fault { trig: Trigger::At(t + r.range(1, 300) * tslot_us), kind: FaultKind::GoOnline { station: 0 }, delay_us: 0 });
+                                FaultKind::GoOffline { station: 0 }
+                            }
+                            _ => FaultKind::ClockJump { station: 0, delta_us: r.range_i(-1_000_000, 1_000_000) },
+                        };
+                        f.push(Fault { trig: Trigger::At(t), kind, delay_us: 0 });
+                    }
+                    if tier == Tier::Thorough && r.chance(1, 10) {
+                        // known finding F12: reset_address while a request is outstanding
+                        if let AppCfg::Dp(d) = &mut w.stations[0].apps[0] {
+                            d.user.reset_inflight_pm = 20;
+                        }
+                    }
+                    (w, o, f)
+                }
+                _ => {
+                    let o = RingOpts {
+                        n_min: 1,
+                        n_max: 5,
+                        max_hsa: if tier == Tier::Quick { 32 } else { 126 },
+                        max_gap: 10,
+                        apps: true,
+                        responders: true,
+                        staged_joins: true,
+                        leaves: true,
+                        buggify: true,
+                        skew: true,
+                        extra_rotations: 40,
+                        ttr_cap_slots: 60,
+                        claim_race: true,
+                        nonneg_clock: false,
+                        many_apps: r.chance(1, 2),
+                    };
+                    let (mut w, mut o) = ring_world(&mut r, tier, &o);
+                    let f = ring_faults(&mut r, &mut w, &mut o, tier);
+                    w.log_all = true;
+                    w.fault_deadline_us = 0;
+                    w.end_us = o.quiet_from_us + 500 * bit_us(w.baud, u64::from(w.stations[0].slot_bits)).max(1);
+                    (w, o, f)
+                }
+            }
         }
         "C11" => {
             if r.chance(1, 3) {
